@@ -70,6 +70,7 @@ func init() {
 		effects.PureOps(11, "Delete", "Erase", "Slice", "(FeatureSlice).Filter", "(GenBankFields).Slice", "*.Shift", "*.Expand")(p, r)
 		conserve.C03(p, r)
 		conserve.AsCompleteRules(p, r)
+		conserve.CompleteWrappers(p, r)
 		orders.RegionAlgebra(p, r, 2) // gts delete removes what Minimize makes of the located regions
 		cachekey.FlagAfterParse(p, r) // gts delete --erase: the switch must be read after the command line has been parsed
 		traps.RangePrecond(p, r) // (GenBankFields).Slice re-reads the REFERENCE ranges: slicing must not die on them
